@@ -95,7 +95,7 @@ Definition k0_world : world :=
   mkWorld (match build POpenID [WithAuthorizationCodeGrant; WithRefreshTokenGrant 1000%Z; WithTokenRevocation; WithTokenLifetime 40%Z] with Some c => c | None => base_config POpenID end) [c2].
 Definition k0_ops : list op :=
   let p := mkParams 0 "https://c2.example/cb" "" "code" "openid" "st" "" PkEmpty "" 0 "" 0 "" [] in
-  let tr code rt := mkTReq (mkCred 2 true) no_bind "" code "https://c2.example/cb" rt PkEmpty 0 HgOk BaApprove [] in
+  let tr code rt := mkTReq (mkCred 2 true) no_bind "" code "https://c2.example/cb" rt PkEmpty 0 HgOk BaApprove [] AsNone in
   [OpAuthorize (mkAReq 2 p true (PolSuccess "alice" "openid" []));
    OpToken GAuthorizationCode (tr (mint 0 KCode) 0);
    OpTick 45%Z;
